@@ -8,6 +8,7 @@ import (
 	"os"
 
 	"verif/harness/c04"
+	"verif/harness/c05"
 	"verif/harness/c07"
 	"verif/harness/c13"
 	"verif/harness/c14"
@@ -42,6 +43,8 @@ func main() {
 		} else {
 			c04.Run(*out)
 		}
+	case "c05":
+		c05.Run(*out, *mode)
 	case "c07":
 		c07.Run(*out)
 	case "c13":
